@@ -224,14 +224,14 @@ PROPS["C18"] = dict(
 )
 def c20_units(tier):
     us = [dict(sub="C20", profile="chk", shards=16)]
-    for R in [1, 2, 126, 200, 248]:
-        us.append(dict(sub="C20", profile="chk", args=["ctor", str(R)]))
+    for R, pb in [(1, "0x0"), (2, "0xe800000000000"), (126, "0x0"), (126, "0xfffff00000000"), (200, "0x40000000"), (248, "0x0"), (248, "0x8000000000000")]:
+        us.append(dict(sub="C20", profile="chk", args=["ctor", str(R), pb]))
     return us
 PROPS["C20"] = dict(
     profiles=["chk"], level="exploration", units=c20_units, engine="vh C20",
     rule=("address computation: ALL 512 recursive indices x each upper page index through all 512 values (others in {0,1,255,256,511}) x 3 sizes, p3/p2/p1 table pages and pointers "
           "(through the verif_hooks accessors) == sign_extend(R<<39|R<<30|R<<21|p4<<12) etc.; constructor: for R in {1,2,126,200,248} a real table at (R,R,R,R) (the simulated level-4 "
-          "frame) and real pages at every near-recursive address (one index +1/-1/+2 in each position) x 5 CR3 contents (emulated mov r,cr3) x 6 contents of the candidate slot: "
+          "frame) and real pages at every near-recursive address (one index +1/-1/+2 in each position) x 6 CR3 contents (emulated mov r,cr3; physical bases incl. addresses above 2^48) x 7 contents of the candidate slot (incl. a frame differing only in physical bits 48..51): "
           "NotRecursive / NotActive / Ok exactly as specified; the index it then uses is observed from the first recursive-window address it dereferences."),
     assumptions=_E4 + ["recursive indices >= 256 are reached for the address computation only (kernel-half addresses cannot be mapped in a user process)"],
 )
